@@ -322,10 +322,10 @@ func runC03(seed int64, n int, tier string) *Result {
 	r := rand.New(rand.NewSource(seed))
 	res := &Result{
 		Prop:     "C03",
-		Requires: []string{"Packet.Writer", "Packet.Pump", "Packet.CheckPump"},
+		Requires: []string{"Packet.Writer", "Node.CheckTracer", "Packet.Teardown", "Packet.CheckTeardown"},
 		CaseType: "c3case",
 		OkFn:     "c3ok",
-		Rule: "writer level: see the pump correspondence; workflow level (every case): src -> A -> B -> sink with one-to-one nodes whose actions are held open; a request of process 1 is brought to one of three points (in A's action, in B's action, at the sink), " +
+		Rule: "non-trivial = two or more writes accepted and the writer closed; writer level: a real writer with 1-3 readers; 4-16 operations (link, unlink, write, answer, reader close with its delayed drop notices delivered one by one, writer close); the requester either waits on Writer.Receive() from the start or arrives only after the history (half the time after the writer was closed); observed: everything it takes, in order, and whether the channel ends closed; workflow level (every case): src -> A -> B -> sink with one-to-one nodes whose actions are held open; a request of process 1 is brought to one of three points (in A's action, in B's action, at the sink), " +
 			"optionally with a second request pipelined behind it, while a request of a second process sits on the same nodes; then one or two teardown actions out of {process exit, close A, close B, close A.in, A.out, A.error, B.in, B.out, the sink port, the source port}; " +
 			"afterwards every held action is released and the sink answers what it still gets; checked: every requester (packet.Send) returns within 1.5s with a non-nil packet that is its real answer or a dropped-packet error, no panic, and requesters on unaffected paths (other process on process exit; everybody on closing an unused port) get their real answer",
 		Hist: map[string]int{},
@@ -340,6 +340,217 @@ func runC03(seed int64, n int, tier string) *Result {
 	return res
 }
 
+// ---- writer level: a real writer and readers torn down at random points; the requester drains
+// Writer.Receive() either all along (it is parked when the writer closes) or only at the end ----
 func pumpCase(r *rand.Rand, hist map[string]int) (string, any, string, bool) {
-	return "([], [], [], true)", map[string]any{}, "", false
+	nr := 1 + r.Intn(3)
+	w := packet.NewWriter()
+	rds := make([]*packet.Reader, nr)
+	for i := range rds {
+		rds[i] = packet.NewReader()
+	}
+	g := theGate
+	g.mu.Lock()
+	g.w, g.active, g.parked = w, true, nil
+	g.mu.Unlock()
+	defer func() {
+		g.mu.Lock()
+		g.active, g.w = false, nil
+		ps := g.parked
+		g.parked = nil
+		g.mu.Unlock()
+		for _, p := range ps {
+			close(p.release)
+		}
+		for _, rd := range rds {
+			rd.Close()
+		}
+		w.Close()
+	}()
+	var got []string
+	var gotMu sync.Mutex
+	closedSeen := false
+	early := r.Intn(2) == 0 // the requester waits on the channel from the start
+	drained := make(chan struct{})
+	drain := func(limit time.Duration) {
+		for {
+			select {
+			case p, ok := <-w.Receive():
+				if !ok {
+					gotMu.Lock()
+					closedSeen = true
+					gotMu.Unlock()
+					return
+				}
+				gotMu.Lock()
+				got = append(got, pktOf(p))
+				gotMu.Unlock()
+			case <-time.After(limit):
+				return
+			}
+		}
+	}
+	stopEarly := make(chan struct{})
+	if early {
+		hist["requester-parked"]++
+		go func() {
+			defer close(drained)
+			for {
+				select {
+				case p, ok := <-w.Receive():
+					if !ok {
+						gotMu.Lock()
+						closedSeen = true
+						gotMu.Unlock()
+						return
+					}
+					gotMu.Lock()
+					got = append(got, pktOf(p))
+					gotMu.Unlock()
+				case <-stopEarly:
+					return
+				}
+			}
+		}()
+	} else {
+		hist["requester-late"]++
+		close(drained)
+	}
+	owed := make([]int, nr)
+	linked := make([]bool, nr)
+	done := make([]bool, nr)
+	wclosed := false
+	var ops, in []string
+	pendingWrites := 0
+	n := 4 + r.Intn(12)
+	for s := 0; s < n; s++ {
+		c := r.Intn(20)
+		if s == 0 && r.Intn(5) > 0 {
+			c = 0 // most histories start by linking a reader
+		}
+		switch {
+		case c < 4:
+			i := r.Intn(nr)
+			if w.Link(rds[i]) {
+				linked[i] = true
+			}
+			ops = append(ops, fmt.Sprintf("WLink %d", i))
+		case c < 5:
+			i := r.Intn(nr)
+			if w.Unlink(rds[i]) {
+				linked[i] = false
+			}
+			ops = append(ops, fmt.Sprintf("WUnlink %d", i))
+		case c < 11:
+			pl := randPayload(r, 1)
+			cnt := w.Write(packet.New(pl))
+			if cnt > 0 {
+				pendingWrites++
+				for i := range rds {
+					if linked[i] && !done[i] && !wclosed {
+						owed[i]++
+						<-rds[i].Read()
+					}
+				}
+			}
+			ops = append(ops, "WWrite "+payOf(pl))
+			hist["write"]++
+		case c < 16:
+			i := r.Intn(nr)
+			var back *packet.Packet
+			switch r.Intn(5) {
+			case 0:
+				back = packet.None
+			case 1:
+				back = packet.New(types.NewError(fmt.Errorf("e%d", 1+r.Intn(4))))
+			default:
+				back = packet.New(randPayload(r, 1))
+			}
+			g.mu.Lock()
+			g.own[back] = true
+			g.mu.Unlock()
+			rds[i].Receive(back)
+			g.mu.Lock()
+			delete(g.own, back)
+			g.mu.Unlock()
+			if owed[i] > 0 {
+				owed[i]--
+			}
+			ops = append(ops, fmt.Sprintf("WAnswer %d %s", i, pktOf(back)))
+		case c < 18:
+			i := r.Intn(nr)
+			k := 0
+			if !done[i] {
+				k = owed[i]
+			}
+			g.mu.Lock()
+			before := len(g.parked)
+			g.mu.Unlock()
+			rds[i].Close()
+			done[i], owed[i] = true, 0
+			ops = append(ops, fmt.Sprintf("WCloseReader %d", i))
+			hist["close-reader"]++
+			if k > 0 {
+				if !g.waitParked(before + k) {
+					return "(0, [], [], false)", nil, "the drop notices of a closed reader did not show up", false
+				}
+				g.mu.Lock()
+				ps := g.parked[before:]
+				g.parked = g.parked[:before]
+				g.mu.Unlock()
+				for _, p := range ps {
+					close(p.release)
+					<-p.done
+					ops = append(ops, "WDeliverDrop 0")
+				}
+			}
+		default:
+			w.Close()
+			wclosed = true
+			ops = append(ops, "WCloseWriter")
+			hist["close-writer"]++
+		}
+		in = append(in, ops[len(ops)-1])
+	}
+	if r.Intn(2) == 0 && !wclosed {
+		w.Close()
+		wclosed = true
+		ops = append(ops, "WCloseWriter")
+		in = append(in, "WCloseWriter")
+		hist["close-writer"]++
+	}
+	// the requester takes what it is owed
+	if early {
+		if wclosed {
+			select {
+			case <-drained:
+			case <-time.After(2 * time.Second):
+				close(stopEarly)
+				<-drained
+			}
+		} else {
+			time.Sleep(3 * time.Millisecond)
+			close(stopEarly)
+			<-drained
+		}
+	} else {
+		if wclosed {
+			drain(2 * time.Second)
+		} else {
+			drain(3 * time.Millisecond)
+		}
+	}
+	gotMu.Lock()
+	gcase := fmt.Sprintf("(%d, %s, %s, %s)", nr, "["+strings.Join(ops, "; ")+"]", "["+strings.Join(got, "; ")+"]", map[bool]string{true: "true", false: "false"}[closedSeen])
+	fail := ""
+	for _, x := range got {
+		if strings.Contains(x, "(-99)") {
+			fail = "the requester was handed a nil packet"
+		}
+	}
+	if wclosed && !closedSeen {
+		fail = "the writer is closed but the requester is still waiting on its channel"
+	}
+	gotMu.Unlock()
+	return gcase, map[string]any{"readers": nr, "requester": map[bool]string{true: "parked from the start", false: "arrives at the end"}[early], "ops": in}, fail, pendingWrites >= 2 && wclosed
 }
